@@ -3,9 +3,12 @@ Tie B: hand-written Gallina model (coq/C18/Model.v) with the decomposition theor
 (coq/C18/Properties.v); correspondence = extracted model vs the real code on the same cases;
 an independent python oracle (reference decompositions written from the property text, evaluated
 on the implementation's own output) classifies every difference."""
-import itertools, math, os, re, struct
+import itertools, math, os, re, struct, sys
 from fractions import Fraction
 import vlib
+
+sys.path.insert(0, os.path.dirname(os.path.abspath(__file__)))
+import factgen  # noqa: E402
 
 REPO_SRC = ["rkcommon/common.cpp", "rkcommon/os/library.cpp", "rkcommon/os/FileName.cpp",
             "rkcommon/utility/PseudoURL.cpp"]
@@ -355,8 +358,42 @@ def is_nontrivial(case, out):
     return bool(re.search(r"[EPTGMkmunpf]$", out))
 
 
+def regen_facts(ctx):
+    """source-derived obligations: regenerate coq/C18/gen/Facts.v from the working tree (clang JSON AST)"""
+    gen_v = os.path.join(ctx.coqdir, "gen", "Facts.v")
+    try:
+        txt = factgen.main(["--repo", ctx.repo, "--out", gen_v, "--work", os.path.join(ctx.build, "ast")])
+    except Exception as ex:
+        ctx.broken.append("fact extraction failed: %r" % (ex,))
+        txt = factgen.unknown_text()
+        os.makedirs(os.path.dirname(gen_v), exist_ok=True)
+        open(gen_v, "w").write(txt)
+    # compiled files that depend on the facts must not survive a change of the facts
+    for f in ("FactsCheck", "PropertiesFacts"):
+        vo = os.path.join(ctx.coqdir, f + ".vo")
+        if os.path.exists(vo) and os.path.getmtime(vo) < os.path.getmtime(gen_v):
+            os.remove(vo)
+    ctx.cov["source_facts"] = [l.strip() for l in txt.splitlines() if l and not l.startswith(("From", "Import", "Local", "(*"))]
+    ctx.trusted.append("fact extractor props/C18/factgen.py over `clang++ -std=c++11 -fsyntax-only -Xclang -ast-dump=json` of common.cpp, "
+                       "FileName.cpp, PseudoURL.cpp, StringManip.h, ArgumentList.h (pretty* if-chains with the float literals rounded "
+                       "exactly to binary32, tokenize tests, FileName guards, beginsWith/longestBeginningMatch shape, parseAndRemove "
+                       "reactions; anything unrecognised becomes an Unknown constructor, which fails the Coq check)")
+
+
 def run(ctx):
-    ctx.coq_check(("Properties.v",))
+    regen_facts(ctx)
+    res = ctx.coq_check(("Properties.v", "PropertiesFacts.v"))
+    bad_facts = sorted(n for n, ok in res.items() if n.startswith("src_") and not ok)
+    if bad_facts:
+        first = None
+        m = re.search(r'File "\./(FactsCheck|PropertiesFacts)\.v", line (\d+)', getattr(ctx, "coq_log", ""))
+        if m:
+            src = open(os.path.join(ctx.coqdir, m.group(1) + ".v")).read().split("\n")[:int(m.group(2))]
+            names = re.findall(r"^(?:Lemma|Theorem)\s+(\w+)", "\n".join(src), re.M)
+            first = names[-1] if names else None
+        ctx.cov["source_fact_broken_first"] = first
+        ctx.log("source-derived obligations broken (first failing: %s); all of PropertiesFacts.v counted as broken: %s\n  extracted facts:\n    %s"
+                % (first, ", ".join(bad_facts), "\n    ".join(ctx.cov.get("source_facts", []))))
     model = ctx.extract(snippets=["conv_N.ml", "conv_Z.ml", "conv_nat.ml"])
     exe = ctx.cxx(["harness.cpp"], "harness", repo_sources=REPO_SRC, sanitize="asan", libs=["-ldl"])
     if not model or not exe:
@@ -463,7 +500,7 @@ def run(ctx):
     ctx.assumptions += ["POSIX build (path_sep '/'); characters are 7-bit in the lowerCase/upperCase cases; tryConsume returns 0 <= k <= size-argID; "
                         "removeArgs/remove are called with where+howMany <= size"]
     if ctx.thorough():
-        ctx.coq_thorough_chk(["C18.Properties"])
+        ctx.coq_thorough_chk(["C18.Properties", "C18.PropertiesFacts"])
 
 
 def decode_out(case, out):
